@@ -57,6 +57,9 @@ pub struct Ledger {
     pub armed: Option<(Cb, u64)>,
     pub fired: bool,
     pub next_val: u32,
+    /// serial of the value behind every `Drop` callback so far, in call order (0 for zero-sized values); lets the fault
+    /// engine say which value the k-th `Drop` call of an operation destroys before it arms that call
+    pub drop_trace: Vec<u64>,
 }
 
 impl Ledger {
@@ -69,6 +72,7 @@ impl Ledger {
             zst_live: [0; 16],
             calls: [0; NCB],
             armed: None,
+            drop_trace: Vec::new(),
             fired: false,
             next_val: 100,
         }
@@ -235,6 +239,7 @@ impl Tok {
     fn on_drop(&mut self) {
         let (serial, tag) = (self.serial, self.tag);
         with_ledger(|l| {
+            l.drop_trace.push(serial);
             let s = serial as usize;
             if s == 0 || s >= l.state.len() || l.tags[s] != tag {
                 if l.errors.len() < 64 {
@@ -405,6 +410,7 @@ impl<const K: u32> Comp for Zst<K> {
 impl<const K: u32> Drop for Zst<K> {
     fn drop(&mut self) {
         with_ledger(|l| {
+            l.drop_trace.push(0);
             l.zst_live[(K % 16) as usize] -= 1;
             if l.zst_live[(K % 16) as usize] < 0 && l.errors.len() < 64 {
                 l.errors.push(TokErr::ZstUnderflow { tag: KIND_ZST | K });
